@@ -80,7 +80,7 @@ def _atoms_shared(atoms, own_eargs):
 class Analyzer:
     def __init__(self, mod, is_lib=None, max_depth=40):
         self.mod = mod
-        self.is_lib = is_lib or (lambda f: LIB in f.dname)
+        self.is_lib = is_lib or (lambda f: irq.is_lib_name(f.dname))
         self.max_depth = max_depth
         self._local_cache = {}
 
